@@ -124,6 +124,20 @@ def run_case(ctx, rng, ci, names):
     d = os.path.join(ctx.workdir, "c%d" % ci)
     os.makedirs(d, exist_ok=True)
     paths, _ = gen.materialize(ds, d, None)
+    file_names = [i["name"] for i in ds["inputs"]]
+    if F >= 2 and len(set(os.path.splitext(p)[1] for p in paths)) == 1 and rng.random() < 0.3:
+        # the same file name in different directories: the columns carry the same name but each its own scores
+        import shutil
+        newp = []
+        for i, pth in enumerate(paths):
+            sub = os.path.join(d, "exp%d" % i)
+            os.makedirs(sub, exist_ok=True)
+            q = os.path.join(sub, "run" + os.path.splitext(pth)[1])
+            shutil.copy(pth, q)
+            newp.append(q)
+        paths = newp
+        file_names = [os.path.basename(q) for q in paths]
+        ctx.count("same_basename_families")
     times, leads, locs = refmodel.common_dims(ds)
     for rep in range(8):
         name = rng.choice(names)
@@ -171,6 +185,9 @@ def run_case(ctx, rng, ci, names):
         leg = None
         if rng.random() < 0.4:
             leg = ["name %d" % i if rng.random() < 0.5 else "N%d" % i for i in range(F)]
+            if F >= 2 and rng.random() < 0.3:
+                leg[-1] = leg[0]          # the same legend text twice
+                ctx.count("duplicate_legend_names")
             argv += ["-leg", ",".join(x.replace(" ", "_") for x in leg)]
         acc = rng.random() < 0.25
         if acc:
@@ -235,7 +252,7 @@ def run_case(ctx, rng, ci, names):
             want_desc = ["Forecasted"]
         else:
             want_desc = [refcli.AXIS_HEADER[axis]]
-        want_names = leg or [i["name"] for i in ds["inputs"]]
+        want_names = leg or file_names
         if [h.strip() for h in header] != want_desc + want_names:
             ctx.violation("header|%s" % otype, "verif <files> %s\nheader %s, documented %s" % (" ".join(argv), header, want_desc + want_names), case)
             continue
@@ -302,7 +319,8 @@ def run_case(ctx, rng, ci, names):
         # independent reference where modelled
         if (name in refmetrics.DETERMINISTIC or name in refmetrics.CATEGORICAL or name in ("obs", "fcst")) and axis not in ("obs", "fcst") \
                 and not (name == "rmsf") and otype == "csv":
-            spec = {"metric": name, "axis": axis, "agg": agg, "thresholds": thresholds, "bin": bin_type, "leg": leg, "acc": acc, "opts": {}}
+            spec = {"metric": name, "axis": axis, "agg": agg, "thresholds": thresholds, "bin": bin_type,
+                    "leg": leg or (file_names if file_names != [i["name"] for i in ds["inputs"]] else None), "acc": acc, "opts": {}}
             try:
                 ref = refcli.table(ds, spec)
                 msg = refcli.compare_table(header, rows, ref, sig=6)
